@@ -44,6 +44,17 @@ class C19(Prop):
                         probs[j] = mx
                 if sum(probs) == 0:
                     probs[0] = 1.0
+                r_ = rng.random()
+                if r_ < 0.15 and nm > 1:
+                    # a runner-up a hair below the maximum: only the exact maximum is "the sample attaining the maximum"
+                    mx = max(probs)
+                    j = rng.choice([i for i in range(nm) if probs[i] != mx] or [0])
+                    if probs[j] != mx:
+                        probs[j] = mx * (1 - rng.choice([1e-6, 1e-9, 1e-12]))
+                elif r_ < 0.3:
+                    # probabilities of any overall scale (densities of a peaked posterior can be tiny or huge)
+                    sc_ = 10 ** rng.choice([-12, -9, -6, 6, 12])
+                    probs = [p_ * sc_ for p_ in probs]
                 mode = rng.choice(['list', 'slice', 'mask'])
                 if mode == 'list':
                     idx = [rng.randrange(nm) for _ in range(rng.randint(1, nm))]
